@@ -200,6 +200,15 @@ func (e *explorer) budgetKey(cp, cd int) uint64 {
 	return uint64(e.opt.PB-cp)<<8 | uint64(e.opt.DB-cd)
 }
 
+// freeKey: the number of free switches taken so far matters for what remains to be explored only when
+// they are bounded.
+func (e *explorer) freeKey(cf int) uint64 {
+	if e.opt.FB <= 0 {
+		return 0
+	}
+	return uint64(cf) << 20
+}
+
 func mix(a, b uint64) uint64 {
 	x := a*0x9E3779B97F4A7C15 ^ (b + 0x7F4A7C159E3779B9 + (a << 6) + (a >> 2))
 	x ^= x >> 31
@@ -277,7 +286,7 @@ func (e *explorer) explore(prefix []int, expect []cpRec, level int) {
 					continue
 				}
 				if e.sc.StateCache && p.opts != nil && alt < len(p.opts) {
-					k := mix(mix(p.fp, p.opts[alt]), mix(e.budgetKey(cp, cd)^uint64(cf)<<20, uint64(p.kind)))
+					k := mix(mix(p.fp, p.opts[alt]), mix(e.budgetKey(cp, cd)^e.freeKey(cf), uint64(p.kind)))
 					if _, ok := e.seen[k]; ok {
 						e.st.Pruned++
 						continue
